@@ -304,6 +304,9 @@ func CheckC18(run *Run) {
 	for ri := range reqs {
 		for i, c := range docRes[ri] {
 			c.Apply(vs[ri][i])
+			if c.Unmodelled != "" && !c.OracleHolds {
+				c.Tags = z3TagsC18(c)
+			}
 			// keep evidence small: drop the documents of agreeing cases
 			if c.Agree {
 				c.Obs = map[string]any{"documents": "agree with the model (omitted)"}
@@ -361,4 +364,15 @@ func OracleFailureCounts(rs []*CaseResult) map[string]int {
 		}
 	}
 	return out
+}
+
+// z3TagsC18: oracle failures on documents the model does not cover (scalars outside the modelled
+// YAML resolution subset), classified from the input and the oracle's note.
+func z3TagsC18(cr *CaseResult) []string {
+	tags := []string{}
+	in, _ := cr.Input.(map[string]any)
+	if id, _ := in["schema"].(string); id == "oasbeyond64" && strings.HasPrefix(cr.OracleNote, "yaml and json renderings differ: $.components.schemas.Acct.properties.code.example") {
+		tags = append(tags, "z3:integer-literal-beyond-64-bit-rounded-in-json")
+	}
+	return tags
 }
